@@ -29,7 +29,20 @@ type Violation struct {
 	Kind string         `json:"kind"`
 	Msg  string         `json:"msg"`
 	Sig  map[string]any `json:"sig,omitempty"`
+	sub  *SubFailure
 }
+
+// SubFailure is returned by an executor that enumerates sub-cases (e.g. every fault position for
+// one generated input): the replay file then holds the failing sub-case under its own kind, which
+// a ReplayOnly test of that kind re-executes directly.
+type SubFailure struct {
+	Kind string
+	Plan any
+	Err  error
+}
+
+func (s *SubFailure) Error() string { return s.Err.Error() }
+func (s *SubFailure) Unwrap() error { return s.Err }
 
 func (v *Violation) Error() string { return v.Kind + ": " + v.Msg }
 
@@ -251,10 +264,16 @@ func (s *Suite) matchKnown(v *Violation) *knownFinding {
 // asViolation converts any error into a Violation.
 func asViolation(err error) *Violation {
 	var v *Violation
-	if errors.As(err, &v) {
-		return v
+	if !errors.As(err, &v) {
+		v = &Violation{Kind: "error", Msg: err.Error()}
 	}
-	return &Violation{Kind: "error", Msg: err.Error()}
+	var sf *SubFailure
+	if errors.As(err, &sf) {
+		cp := *v
+		cp.sub = sf
+		v = &cp
+	}
+	return v
 }
 
 // Guard runs f and converts a panic into a Violation of kind "panic".
@@ -408,7 +427,12 @@ func Run[P any](t *testing.T, s *Suite, kind string, base int, gen func(*rapid.T
 	rapid.Check(t, func(rt *rapid.T) {
 		plan := gen(rt)
 		if v := Exec(s, kind, plan, exec); v != nil {
-			p := s.writeReplay(name, kind, plan, v)
+			var p string
+			if v.sub != nil {
+				p = s.writeReplay(fmt.Sprintf("fail-%s-seed%s%s.json", v.sub.Kind, os.Getenv("VERIF_SEED"), partTag()), v.sub.Kind, v.sub.Plan, v)
+			} else {
+				p = s.writeReplay(name, kind, plan, v)
+			}
 			s.mu.Lock()
 			s.failed++
 			s.mu.Unlock()
@@ -470,6 +494,38 @@ func replayOne[P any](t *testing.T, s *Suite, kind, path string, exec func(P) (O
 		fmt.Printf("VERIF-FAIL property=%s kind=%s replay=%s\n", s.Prop, kind, p)
 		t.Fatalf("%s/%s replay %s: %d of %d runs failed: %v", s.Prop, kind, filepath.Base(path), fails, reps, last)
 	}
+}
+
+// ReplayOnly registers a kind that is never generated on its own (sub-cases of an enumerating
+// executor) so that its replay and regression files can be re-executed.
+func ReplayOnly[P any](t *testing.T, s *Suite, kind string, exec func(P) (Outcome, error)) {
+	s.mu.Lock()
+	if s.kinds[kind] == nil {
+		s.kinds[kind] = &kindStats{}
+	}
+	s.mu.Unlock()
+	if rp := os.Getenv("VERIF_REPLAY"); rp != "" {
+		replayOne(t, s, kind, rp, exec, true)
+		return
+	}
+	if rd := os.Getenv("VERIF_REGRESS"); rd != "" {
+		files, _ := filepath.Glob(filepath.Join(rd, s.Prop, "*.json"))
+		sort.Strings(files)
+		for _, f := range files {
+			replayOne(t, s, kind, f, exec, false)
+		}
+	}
+}
+
+// Sub records one enumerated sub-case in the evidence.
+func (s *Suite) Sub(kind string, plan any, out Outcome) {
+	s.mu.Lock()
+	if s.kinds[kind] == nil {
+		s.kinds[kind] = &kindStats{}
+	}
+	s.kinds[kind].Requested++
+	s.mu.Unlock()
+	s.record(kind, plan, out)
 }
 
 // Direct runs a non-generated (enumerated) family of cases through the same bookkeeping.
